@@ -152,7 +152,7 @@ func ErrKind(code uint32, log string) string {
 		{"insufficient reward", "noreward"}, {"amount must be 0", "wdamount"}, {"not found result", "notfound"},
 		{"wrong address: the 'to' field", "tozero"}, {"too long name", "payloadparams"}, {"too long url", "payloadparams"},
 		{"wrong applyingHeight", "payloadparams"}, {"overflow occurs", "payloadparams"}, {"wrong options", "payloadparams"},
-		{"JSON", "payloadparams"}, {"strconv", "payloadparams"}, {"invalid syntax", "payloadparams"}, {"out of range", "payloadparams"}, {"looking for beginning", "payloadparams"}, {"json:", "payloadparams"}, {"invalid character", "payloadparams"}, {"cannot unmarshal", "payloadparams"}, {"invalid params of transaction payload", "payloadparams"},
+		{"JSON", "payloadparams"}, {"strconv", "payloadparams"}, {"invalid syntax", "payloadparams"}, {"out of range", "payloadparams"}, {"looking for beginning", "payloadparams"}, {"json:", "payloadparams"}, {"invalid character", "payloadparams"}, {"cannot unmarshal", "payloadparams"}, {"cannot decode empty bytes", "payloadparams"}, {"invalid params of transaction payload", "payloadparams"},
 		{"wrong transaction payload type", "payloadtype"}, {"unknown transaction type", "unknowntype"},
 		{"execution reverted", "evmrevert"}, {"out of gas", "evmoog"}, {"intrinsic gas too low", "evmintrinsic"},
 		{"invalid opcode", "evmbadop"}, {"gas limit reached", "evmgaspool"}, {"nonce too", "evmnonce"},
